@@ -107,6 +107,20 @@ Tolerances (all derived here, see ``tol_pos``):
   strictly inside the span was recorded.  Targets that stay inside their box never get that suffix: the seeded slip "Earth-fixed
   frame of the keeper frozen at the start of the call" (spurious burn 120 s into every call longer than that) gives 7e-3 km
   and unexpected burns there, 50 tolerances.
+* stale schedules (propagation WITH scheduled events - ECI / NTW impulses, finite NTW burns - where every leg of a split is
+  handed the FULL, un-pruned schedule: events that lie before the start of a call are over, events after its end are not due;
+  the scenario loop prunes the queue before every step, a caller of propagate / propagateBulk or a filter handed a queue need
+  not).  States: split against direct call and against the segment-wise reference within tol_pos / tol_vel of the span (the split
+  tolerance above; propagateBulk outputs 3x, the dense-output allowance); measured worst ratio 0.09 (five seeds).  The smallest
+  event of the table is 3e-3 km/s (a 150 s burn at 2e-5 km/s^2) or 5e-3 km/s (impulse): applied twice, not at all, or at another
+  event's time >= 0.02 spans away it moves the state by >= 5e-3 km/s x 6 s = 3e-2 km for the 300 s span (tolerance 2e-5 km) -
+  3 orders of margin.  Reference: event-free coasts (two-body: closed-form Kepler; SP: the real code without events) between
+  the event times, delta-v added by hand, thrust arcs integrated here with DOP853 at rtol 1e-12 (100x tighter than the library;
+  its own error is below 1e-8 km for these arcs).  Event records: the number of EventStack records of every call equals the
+  number of events due in that call (exact, no tolerance) - a second observation channel that names the event kind applied
+  once too often / too few.  Events exactly on a call boundary are excluded (the impulse's event function is zero at its own
+  time in both calls: whose event it is is not defined by the property); every event is >= 0.02 spans (6 s) from every split
+  point, output time and other event.
 """
 from __future__ import annotations
 
@@ -118,6 +132,7 @@ import time
 from datetime import datetime, timedelta
 
 import numpy as np
+from scipy.integrate import solve_ivp
 
 from verif import framework as fw
 from verif import fakeray
@@ -144,7 +159,7 @@ from resonaate.dynamics.integration_events.finite_thrust import ScheduledFiniteB
 from resonaate.parallel.key_value_store import KeyValueStore  # noqa: E402
 from resonaate.physics.transforms.reductions import ReductionParams  # noqa: E402
 from resonaate.scenario.config.platform_config import SpacecraftConfig  # noqa: E402
-from resonaate.dynamics.integration_events.scheduled_impulse import ScheduledImpulse  # noqa: E402
+from resonaate.dynamics.integration_events.scheduled_impulse import ScheduledECIImpulse, ScheduledImpulse, ScheduledNTWImpulse  # noqa: E402
 from resonaate.dynamics.special_perturbations import SpecialPerturbations  # noqa: E402
 from resonaate.dynamics.two_body import TwoBody  # noqa: E402
 from resonaate.physics.bodies import Earth  # noqa: E402
@@ -205,8 +220,18 @@ RULE = (
     "are attached. Scenario level: a real truth-only Scenario with global station keeping flies three quiet targets at physics "
     "steps 600 / 300 / 60 s; truth at the common times 600 / 1200 / 1800 s against the 60 s run (split tolerance) and against "
     "the same scenario without station keeping (bit-identical). "
+    "Stale-schedule family (propagation WITH scheduled events: ScheduledECIImpulse / ScheduledNTWImpulse / ScheduledFiniteBurn): for "
+    "every (dynamics: two-body and one SP configuration, integrator, orbit, span/start time, schedule of the table ST_SCHEDULES - 2-3 "
+    "events: impulse pairs and triples, impulse + finite burn in the second leg, a finished finite burn + impulse, a burn straddling the "
+    "split points between two impulses; plus, for start times > 0, an impulse from before the start of the span left in the list) the "
+    "span is propagated directly and split into two (0.5) and three (0.45, 0.72) legs with every leg handed (a) the full schedule as "
+    "fresh event objects, (b) the full schedule as the same objects in every leg, (c) the schedule pruned of finished events (control); "
+    "propagateBulk (6,1) over the whole span and as two calls split at 0.5 with full and pruned schedules; every result is compared with "
+    "the direct call and with a segment-wise reference (event-free coasts, delta-v added by hand, thrust arcs integrated here), and the "
+    "EventStack records of every single call are counted against the events due in that call; non-trivial when the events move the "
+    "state by > 1000 tolerances and (full schedules) at least one leg holds both an event from before its start and an event inside it. "
     "Distinct by construction (lattice points); VERIF_SEED rotates RAAN/argument of perigee/third anomaly, the SP "
-    "start day, the batch column assignment and the orbit assignment of the epoch-split / twin items."
+    "start day, the batch column assignment and the orbit assignment of the epoch-split / twin / stale-schedule items."
 )
 ASSUMPTIONS = [
     "closed-form conic relations (Kepler's equation in E/F, Barker's equation) in verif/oracles/kepler_ref.py are the "
@@ -215,6 +240,12 @@ ASSUMPTIONS = [
     "the force model value of SpecialPerturbations is the subject of C13; here only its dependence on (epoch, state)",
     "events used to force a restart are test doubles deriving from DiscreteStateChangeEvent with a constant state "
     "change; scheduling/queueing of real impulses belongs to C01/C15",
+    "stale-schedule family: the library's own event classes are used as they are; the meaning of an event (delta-v added once at its "
+    "time, ECI or NTW components with T along the velocity, W along r x v, N = T x W; constant NTW acceleration between start and end "
+    "time) is taken from their docstrings; the reference coasts are the closed-form Kepler reference (two-body) or the real code "
+    "called without events (SP: the decomposition oracle of the restart subcheck), the thrust arcs scipy DOP853 at rtol 1e-12 on the "
+    "event-free derivative; applied events are counted through the EventStack records in the key-value store (fake-ray seam); an "
+    "event exactly on a call boundary is outside the family",
     "epoch-split reference trajectory: C13's independent force model (verif/oracles/force_ref.py) evaluated at "
     "absolute UTC instants, the library's public ecef2eci for the Earth orientation (C04's subject), scipy DOP853 at "
     "rtol 1e-12",
@@ -487,6 +518,8 @@ def items(tier, seed):
                 j += 1
     # ---- station keeping: one call against every split into equal physics steps (keepers active)
     out.extend(_sk_items(thorough, seed, jd0))
+    # ---- stale schedules: propagation WITH scheduled events, every leg of a split handed the full, un-pruned schedule
+    out.extend(_st_items(thorough, seed, jd0))
     # ---- closed-form solver and helpers
     for ch in fw.chunked(all_idx, 15):
         out.append(["universal", [_orbit(i, seed) for i in ch]])
@@ -587,6 +620,8 @@ def _cost(it):
         per_s = (2.8e-6 if it[1] == "twobody" else 6e-5) * (6.0 if leo else 1.0) * (1.0 if it[2] == "RK45" else 0.6)
         per_call = 1e-3 if it[1] == "twobody" else (0.007 if it[2] == "RK45" else 0.014)
         return sum((len(steps) + 4) * per_s * span + per_call * sum(span / s for s in steps) for span, steps in it[7]) + 0.05
+    if it[0] == "stale_schedule":
+        return (0.12 if it[1] == "twobody" else (0.7 if it[2] == "RK45" else 1.1)) * len(it[8])
     if it[0] == "epoch_split":
         return (0.0012 * it[2] + 0.6) * (6800.0 / it[7][0]) ** 0.5 * len(it[3]) / 6.0
     if it[0] == "epoch_twin":
@@ -646,6 +681,7 @@ def bounds(tier, seed):
             "items": sum(1 for it in its if it[0] == "epoch_twin"),
         },
         "station_keeping": _sk_bounds(tier, seed, its),
+        "stale_schedule": _st_bounds(its),
         "propagation_items": len(props),
         "orbits_per_dynamics_integrator_span": _orbit_counts(props),
         "orbit_span_combinations": sum(len(it[7]) for it in props),
@@ -1779,6 +1815,297 @@ def _run_sk_scenario(res, item):
     return ratios
 
 
+# ------------------------------------------------------------------------------------------------ stale schedules
+# Composability of a propagation WITH scheduled events when every leg is handed the FULL schedule: a caller that splits
+# t0 -> t2 at t1 and passes the same list of events to both calls (or a filter / prediction handed a queue that was not pruned)
+# must get the direct result: events before a call's start are over, events after its end are not due yet.
+# Event specs: ("eci" | "ntw", fraction of the span, delta-v [km/s]) or ("burn", start fraction, end fraction, NTW acceleration
+# [km/s^2]).  Every schedule has >= 1 event in the first and >= 1 in the last leg of every split of ST_SPLITS, and no event
+# closer than 0.02 spans (>= 6 s) to a split point, an output time or another event: an event exactly ON a call boundary
+# belongs to both calls by the library's own event function (zero at its time) and is outside this family.
+ST_SCHEDULES = {
+    "eci_eci": [("eci", 0.25, [0.0, 0.010, 0.005]), ("eci", 0.75, [0.003, -0.002, 0.001])],
+    "ntw_eci_ntw": [("ntw", 0.2, [0.002, 0.008, -0.004]), ("eci", 0.6, [-0.005, 0.004, 0.006]), ("ntw", 0.85, [0.0, -0.006, 0.003])],
+    "eci_ntw_eci": [("eci", 0.1, [0.004, 0.0, -0.006]), ("ntw", 0.3, [0.0, 0.009, 0.0]), ("eci", 0.8, [0.002, 0.005, 0.001])],  # two stale impulses
+    "eci_burn": [("eci", 0.2, [0.0, -0.008, 0.004]), ("burn", 0.6, 0.8, [0.0, 2.0e-5, 0.0])],  # stale impulse, thrust start / end are the live events
+    "burn_eci": [("burn", 0.1, 0.3, [1.0e-5, 2.0e-5, 0.0]), ("ntw", 0.78, [0.001, 0.007, -0.002])],  # stale (finished) finite burn
+    "eci_burn_across_ntw": [("eci", 0.15, [0.006, 0.0, 0.003]), ("burn", 0.35, 0.65, [0.0, -2.0e-5, 1.0e-5]), ("ntw", 0.9, [0.0, 0.005, 0.0])],  # a leg starts mid-burn
+}
+ST_PAST_EVENT = ("eci", -0.2, [0.007, -0.003, 0.009])  # an impulse from before t0 still in the list (t0 > 0 only): never due in any call
+ST_SPLITS = {"two_legs": [0.5], "three_legs": [0.45, 0.72]}
+ST_BULK_GRID = [0.33, 0.5, 0.57, 0.77, 1.0]  # output times of propagateBulk; the two-leg bulk split is at 0.5
+ST_VARIANTS = ["full_fresh", "full_shared", "pruned"]
+ST_VARIANTS_LEAN = ["full_fresh", "pruned"]  # quick tier, SP (a short SP call with DOP853 costs 20 ms, every event a restart)
+ST_RSO = 10001
+ST_SP_SCHEDULES = ["eci_eci", "eci_burn_across_ntw"]
+ST_QUICK_SP = "sp_g4"
+
+
+def _st_items(thorough, seed, jd0):
+    """["stale_schedule", dynamics, integrator, span, t0, jd0, seed, orbit, [schedule names]]."""
+    out = []
+    # two-body: a LEO, an eccentric and a GEO orbit (rotating with the seed); ten minutes from scenario time 0 and an hour from 7200 s
+    tb_idx = [(seed % 15), 15 + (seed + 4) % 15, 60 + (seed + 8) % 15] + ([30 + (seed + 2) % 15, 45 + (seed + 6) % 15] if thorough else [])
+    for method in METHODS:
+        for k, i in enumerate(tb_idx):
+            for T, t0 in ((600.0, 0.0), (3600.0, 7200.0)):
+                if not thorough and (k + METHODS.index(method)) % 2 != (0 if T < 3600.0 else 1):
+                    continue  # quick tier: every orbit gets one of the two (span, start time) pairs per integrator, the other with the other integrator
+                out.append(["stale_schedule", "twobody", method, T, t0, 0.0, seed, _orbit(i, seed), list(ST_SCHEDULES)])
+    # special perturbations: a LEO orbit, five minutes a day into the scenario (thorough: every schedule, two configurations, an hour as well)
+    cfgs = [ST_QUICK_SP] + (["sp_g2sm"] if thorough else [])
+    for cfg in cfgs:
+        for method in METHODS:
+            i = _sp_orbits(seed, 4)[(seed + METHODS.index(method)) % 4]
+            out.append(["stale_schedule", cfg, method, 300.0, 87000.0, jd0, seed, _orbit(i, seed), list(ST_SCHEDULES) if thorough else ST_SP_SCHEDULES])
+            if thorough:
+                out.append(["stale_schedule", cfg, method, 3600.0, 90000.0, jd0, seed, _orbit(i, seed), ST_SP_SCHEDULES])
+    return out
+
+
+def _st_bounds(its):
+    st = [it for it in its if it[0] == "stale_schedule"]
+    return {
+        "schedules_fraction_of_span": {k: [list(ev) for ev in v] for k, v in ST_SCHEDULES.items()},
+        "past_event_for_start_times_gt_0": list(ST_PAST_EVENT), "splits": ST_SPLITS, "bulk_output_fractions": ST_BULK_GRID, "bulk_split": 0.5,
+        "variants": {"two-body and thorough SP": ST_VARIANTS, "quick SP": ST_VARIANTS_LEAN}, "entries": ["propagate", "propagateBulk (6,1)"],
+        "compared_with": ["direct call", "segment-wise reference", "EventStack record count per call"],
+        "dynamics_integrator_span_t0_a_e_schedules": sorted([it[1], it[2], it[3], it[4], it[7][0], it[7][1], len(it[8])] for it in st),
+        "items": len(st),
+    }
+
+
+def _st_ntw(y):
+    """(N, T, W) unit vectors of the state: T along the velocity, W along the orbit normal r x v, N = T x W (the convention
+    the docstrings of the NTW impulse / burn name; written out here, the library's ntw2eci is not used)."""
+    r, v = np.asarray(y[:3], dtype=float), np.asarray(y[3:6], dtype=float)
+    t_hat = v / math.sqrt(float(v @ v))
+    h = np.cross(r, v)
+    w_hat = h / math.sqrt(float(h @ h))
+    return np.cross(t_hat, w_hat), t_hat, w_hat
+
+
+def _st_to_eci(y, vec):
+    n_hat, t_hat, w_hat = _st_ntw(y)
+    return vec[0] * n_hat + vec[1] * t_hat + vec[2] * w_hat
+
+
+def _st_abs(spec, t0, T):
+    """Event spec with absolute times."""
+    if spec[0] == "burn":
+        return ("burn", t0 + spec[1] * T, t0 + spec[2] * T, np.array(spec[3], dtype=float))
+    return (spec[0], t0 + spec[1] * T, np.array(spec[2], dtype=float))
+
+
+def _st_objects(events):
+    """Fresh library event objects of a schedule (absolute times), in schedule order."""
+    out = []
+    for ev in events:
+        if ev[0] == "eci":
+            out.append(ScheduledECIImpulse(float(ev[1]), ev[2].copy(), ST_RSO))
+        elif ev[0] == "ntw":
+            out.append(ScheduledNTWImpulse(float(ev[1]), ev[2].copy(), ST_RSO))
+        else:
+            out.append(ScheduledFiniteBurn(float(ev[1]), float(ev[2]), partial(ntwBurn, acc_vector=ev[3].copy()), ST_RSO))
+    return out
+
+
+def _st_end(ev):
+    return ev[2] if ev[0] == "burn" else ev[1]
+
+
+def _st_expected_records(events, ta, tb):
+    """EventStack records a call over (ta, tb) must push, from the documented meaning of the events alone: one per impulse
+    strictly inside, one per burn switched on inside or already running at ta, one per burn switched off inside."""
+    want = {"eci_impulse": 0, "ntw_impulse": 0, "thrust_on": 0, "thrust_off": 0}
+    for ev in events:
+        if ev[0] == "burn":
+            want["thrust_on"] += int(ta < ev[1] < tb or ev[1] < ta < ev[2])
+            want["thrust_off"] += int(ta < ev[2] < tb)
+        else:
+            want["eci_impulse" if ev[0] == "eci" else "ntw_impulse"] += int(ta < ev[1] < tb)
+    return want
+
+
+def _st_records():
+    got = {"eci_impulse": 0, "ntw_impulse": 0, "thrust_on": 0, "thrust_off": 0}
+    other = []
+    for label, performer in _sk_drain():
+        if label in ("ECI Impulse", "NTW Impulse"):
+            got[label.lower().replace(" ", "_")] += 1
+        elif label.startswith("Finite thrust ended at"):
+            got["thrust_off"] += 1
+        elif label.startswith("Finite thrust at"):
+            got["thrust_on"] += 1
+        else:
+            other.append(label)
+        if performer != ST_RSO:
+            other.append(f"performer {performer}")
+    return got, other
+
+
+def _st_model(kind, dyn_ref):
+    """(coast(ta, tb, state), derivative(t, state)) of the event-free motion the segment-wise reference is built from.
+    Two-body: the closed-form Kepler reference and mu r / r^3 written out here (nothing of the library).  SP: the real code
+    called without any event (the decomposition oracle of the restart subcheck) and its derivative with no thrust armed."""
+    if kind == "twobody":
+        def gravity(_t, s):
+            r = np.asarray(s[:3], dtype=float)
+            return np.concatenate((np.asarray(s[3:], dtype=float), -MU * r / math.sqrt(float(r @ r)) ** 3))
+
+        return (lambda ta, tb, y: kr.propagate(y, tb - ta)), gravity
+
+    def derivative(t, s):
+        dyn_ref.finite_thrust = None
+        return np.array(dyn_ref._differentialEquation(float(t), np.array(s, dtype=float)), dtype=float)  # noqa: SLF001
+
+    return (lambda ta, tb, y: dyn_ref.propagate(float(ta), float(tb), np.array(y, dtype=float))), derivative
+
+
+def _st_reference(model, x0, t0, events, out_times):
+    """Segment-wise reference {time: state}: event-free coasts between the break points (event times and output times),
+    delta-v added by hand (NTW components through this module's own basis), and the thrust arcs integrated here (scipy
+    DOP853, rtol 1e-12: 100x tighter than the library) with the event-free derivative + the NTW acceleration.  No event
+    object is involved anywhere."""
+    coast, gravity = model
+    inside = [ev for ev in events if _st_end(ev) > t0]
+    pts = sorted({float(t0), *[float(t) for t in out_times], *[float(ev[1]) for ev in inside if ev[1] > t0],
+                  *[float(ev[2]) for ev in inside if ev[0] == "burn"]})
+    pts = [t for t in pts if t <= max(out_times)]
+    y = np.array(x0, dtype=float)
+    out = {}
+    for a, b in zip(pts, pts[1:]):
+        for ev in inside:
+            if ev[0] != "burn" and ev[1] == a and a > t0:
+                y = y.copy()
+                y[3:] += ev[2] if ev[0] == "eci" else _st_to_eci(y, ev[2])
+        mid = 0.5 * (a + b)
+        acc = [ev[3] for ev in inside if ev[0] == "burn" and ev[1] < mid < ev[2]]
+        if not acc:
+            y = np.asarray(coast(a, b, y.copy()), dtype=float)
+        else:
+            def rhs(t, s, _acc=acc):
+                d = np.array(gravity(t, s), dtype=float)
+                for vec in _acc:
+                    d[3:] += _st_to_eci(s, vec)
+                return d
+
+            sol = solve_ivp(rhs, (a, b), y.copy(), method="DOP853", rtol=1e-12, atol=1e-14)
+            if not sol.success:
+                raise RuntimeError(f"reference integration failed: {sol.message}")
+            y = sol.y[:, -1]
+        if b in out_times:
+            out[b] = np.array(y, dtype=float)
+    return out
+
+
+def _run_stale_schedule(res, item):
+    _, kind, method, T, t0, jd, seed, orb, names = item
+    T, t0, jd = float(T), float(t0), float(jd)
+    scen.fresh()
+    setDBPath("sqlite://")
+    ctx = _Ctx(res, item, kind, method, T, t0)
+    dyn, dyn_ref = _dynamics(kind, method, jd), _dynamics(kind, method, jd)
+    x0 = _state(orb)
+    a, e = orb[0], orb[1]
+    tp, tv = ctx.tp(a, e), ctx.tv(a, e)
+    t2 = t0 + T
+    grid = [t0 + f * T for f in ST_BULK_GRID]
+    plain = _call(dyn_ref.propagate, t0, t2, x0.copy())
+    model = _st_model(kind, dyn_ref)
+    variants = ST_VARIANTS if (kind == "twobody" or len(names) == len(ST_SCHEDULES)) else ST_VARIANTS_LEAN
+
+    def records(case, events, ta, tb, entry, variant, *, nontrivial):
+        """One EventStack record per event applied in the call that just returned: the number of state changes is observed
+        independently of the states."""
+        got, other = _st_records()
+        want = _st_expected_records(events, ta, tb)
+        ok = got == want and not other
+        kinds = [k for k in want if got[k] != want[k]]
+        res.case("stale_records", case, ok, nontrivial=nontrivial,
+                 signature=f"C03/stale_schedule/{kind}/{method}/{entry}/{variant}/events_applied" + ("" if ok else "/" + "+".join(kinds or ["other"])),
+                 observed={"records": got, "other": other[:5]}, expected=want, outcome="+".join(f"{k}={v}" for k, v in got.items() if v), item=item)
+        return ok
+
+    for name in names:
+        specs = list(ST_SCHEDULES[name])
+        if t0 + ST_PAST_EVENT[1] * T > 8.0:  # scenario times are >= 0; impulse times below 8 s are the fixed finding F-C03-1's region
+            specs = [ST_PAST_EVENT] + specs
+        events = [_st_abs(s, t0, T) for s in specs]
+        extra = {"schedule": name, "events": [[ev[0]] + [round(float(x) - t0, 6) for x in (ev[1:3] if ev[0] == "burn" else ev[1:2])] for ev in events]}
+        _sk_drain()
+        ref = _call(_st_reference, model, x0, t0, events, grid)
+        if _bad(ref):
+            raise RuntimeError(f"harness: reference failed for {name}: {ref!r}")
+        want = ref[t2]
+        # the events really act: otherwise every comparison below says nothing
+        acts = (not _bad(plain)) and fw.maxabs(want[:3], np.asarray(plain)[:3]) > 1000.0 * tp
+        # -- the direct call with the whole schedule against the reference
+        direct = _call(dyn.propagate, t0, t2, x0.copy(), scheduled_events=_st_objects(events))
+        case = dict(extra, entry="propagate", decomposition="direct")
+        ok_rec = records(ctx.base(orb, **case), events, t0, t2, "propagate", "direct", nontrivial=True)
+        ctx.compare("stale_schedule", orb, direct, want, tp, tv, nontrivial=bool(acts), detail="propagate/direct/vs_reference" + ("" if ok_rec else "/events_applied_differ"), extra=case)
+        if not _bad(direct):
+            res.observe(direct)
+        # -- propagate: every split, every leg handed the full schedule (fresh / the same objects) or the pruned one
+        for split, fracs in ST_SPLITS.items():
+            cuts = [t0] + [t0 + f * T for f in fracs] + [t2]
+            for variant in variants:
+                shared = _st_objects(events)
+                state, ok_rec, stale_live = x0.copy(), True, 0
+                for ta, tb in zip(cuts, cuts[1:]):
+                    leg_events = [ev for ev in events if _st_end(ev) > ta] if variant == "pruned" else events
+                    objs = shared if variant == "full_shared" else _st_objects(leg_events)
+                    stale = sum(1 for ev in leg_events if _st_end(ev) < ta)
+                    live = sum(1 for ev in leg_events if ta < ev[1] < tb or (ev[0] == "burn" and ta < ev[2] < tb))
+                    stale_live += int(stale > 0 and live > 0)
+                    state = state if _bad(state) else _call(dyn.propagate, ta, tb, np.array(state, dtype=float), scheduled_events=objs)
+                    case = dict(extra, entry="propagate", decomposition=split, variant=variant, leg=[ta - t0, tb - t0], stale_events=stale, live_events=live)
+                    if _bad(state):
+                        _sk_drain()
+                    else:
+                        ok_rec = records(ctx.base(orb, **case), leg_events, ta, tb, "propagate", variant, nontrivial=stale > 0 and live > 0) and ok_rec
+                case = dict(extra, entry="propagate", decomposition=split, variant=variant, legs_with_stale_and_live_events=stale_live)
+                nontrivial = bool(acts) and (variant == "pruned" or stale_live > 0)
+                sfx = "" if ok_rec else "/events_applied_differ"
+                if not _bad(direct):
+                    ctx.compare("stale_schedule", orb, state, direct, tp, tv, nontrivial=nontrivial, detail=f"propagate/{variant}/vs_direct{sfx}", extra=case)
+                ctx.compare("stale_schedule", orb, state, want, tp, tv, nontrivial=nontrivial, detail=f"propagate/{variant}/vs_reference{sfx}", extra=case)
+        # -- propagateBulk ((6, 1) layout): the whole span in one call, and two calls split at 0.5, full and pruned schedules
+        n1 = ST_BULK_GRID.index(0.5) + 1
+        for variant, plan in (("direct", [[t0] + grid]), ("full_fresh", [[t0] + grid[:n1], grid[n1 - 1:]]), ("pruned", [[t0] + grid[:n1], grid[n1 - 1:]])):
+            state, outs, ok_rec, stale_live = x0.copy(), {}, True, 0
+            for times in plan:
+                ta, tb = times[0], times[-1]
+                leg_events = [ev for ev in events if _st_end(ev) > ta] if variant == "pruned" else events
+                stale = sum(1 for ev in leg_events if _st_end(ev) < ta)
+                live = sum(1 for ev in leg_events if ta < ev[1] < tb or (ev[0] == "burn" and ta < ev[2] < tb))
+                stale_live += int(stale > 0 and live > 0)
+                got = state if _bad(state) else _call(dyn.propagateBulk, [float(t) for t in times], np.array(state, dtype=float).reshape(6, 1), scheduled_events=_st_objects(leg_events))
+                case = dict(extra, entry="propagateBulk", decomposition="direct" if len(plan) == 1 else "two_legs", variant=variant, leg=[ta - t0, tb - t0], stale_events=stale, live_events=live)
+                if _bad(got) or np.asarray(got).shape != (6, 1, len(times) - 1):
+                    _sk_drain()
+                    ctx.compare("stale_schedule", orb, got, x0, tp, tv, nontrivial=True, detail=f"propagateBulk/{variant}/layout", extra=case, shape=(6, 1, len(times) - 1))
+                    state = got if _bad(got) else ValueError("propagateBulk layout")
+                    continue
+                ok_rec = records(ctx.base(orb, **case), leg_events, ta, tb, "propagateBulk", variant, nontrivial=len(plan) == 1 or (stale > 0 and live > 0)) and ok_rec
+                got = np.asarray(got, dtype=float)
+                res.observe(got)
+                for j, t in enumerate(times[1:]):
+                    outs[t] = got[:, 0, j]
+                state = got[:, 0, -1]
+            sfx = "" if ok_rec else "/events_applied_differ"
+            for t, got in outs.items():
+                case = dict(extra, entry="propagateBulk", decomposition="direct" if len(plan) == 1 else "two_legs", variant=variant, output_frac=round((t - t0) / T, 6),
+                            legs_with_stale_and_live_events=stale_live)
+                nontrivial = bool(acts) and (variant != "full_fresh" or (stale_live > 0 and t > plan[-1][0]))
+                # dense output between step ends: the grid allowance of the output-grid subcheck (see module docstring)
+                ctx.compare("stale_schedule", orb, got, ref[t], DENSE_FACTOR * tp, DENSE_FACTOR * tv, nontrivial=nontrivial,
+                            detail=f"propagateBulk/{variant}/vs_reference{sfx}", extra=case)
+    res.case("input_unchanged", ctx.base(orb, family="stale_schedule"), bool(np.array_equal(x0, _state(orb))), signature=f"C03/input_mutated/{kind}/{method}", item=item)
+    return ctx.ratios
+
+
 # ------------------------------------------------------------------------------------------------ closed-form solver
 def _tol_universal(x0, state_ref, mu):
     """Error budget of solveKeplerProblemUniversal, derived from its stopping rule.
@@ -2045,6 +2372,8 @@ def run_item(item):
         ratios = _run_station_keeping(res, item)
     elif kind == "station_keeping_scenario":
         ratios = _run_sk_scenario(res, item)
+    elif kind == "stale_schedule":
+        ratios = _run_stale_schedule(res, item)
     elif kind == "universal":
         ratios = _run_universal(res, item)
     elif kind == "universal_branches":
@@ -2065,6 +2394,8 @@ def run_item(item):
         res.ratio_group = f"station_keeping/{item[1]}/{item[2]}/{item[3]}/t0={item[4]:g}"
     elif kind == "station_keeping_scenario":
         res.ratio_group = f"station_keeping_scenario/{item[1]}/{item[2]}"
+    elif kind == "stale_schedule":
+        res.ratio_group = f"stale_schedule/{item[1]}/{item[2]}/T={item[3]:g}"
     return res
 
 
